@@ -5,6 +5,7 @@ delivery is the message-level fold (SrvSteps / CliSteps), each message is the on
 (WfSteps / WfPublish, by the payload round trip C13 and the AMF0 round trip C04 behind it).
 -/
 import Rml.Lemmas.WfPublish
+import Rml.Lemmas.WfPlay
 import Rml.Lemmas.Interop
 namespace Rml.Workflow
 open Rml Rml.Bytes Rml.Chunk Rml.Amf0 Rml.Msgs Rml.Sess Rml.SerHist Rml.Emit Rml.Link Rml.Exchange Rml.WfSteps
@@ -469,5 +470,105 @@ theorem stop_publishing {c c1 : Cli.State} {v : Srv.State} {sid : Nat} {app key 
   refine ⟨p, _, hrs, hd, ⟨hl, ?_⟩, by rw [hc1], by rw [hc1], ?_⟩
   · rw [hc1]; exact hr.inStep.sc
   · exact mapGet_mapRemove_self sid v.streams
+
+/-! ### play -/
+
+theorem srv_steps_cons {v v1 v2 : Srv.State} {now : Nat} {m : Msg} {ms : List Msg} {r1 r2 : List Srv.Res}
+    (h1 : SrvSteps.stepMsg v now m = .ok (v1, r1)) (h2 : SrvSteps.steps v1 now ms = .ok (v2, r2)) :
+    SrvSteps.steps v now (m :: ms) = .ok (v2, r1 ++ r2) := by
+  simp only [SrvSteps.steps, h1, h2]
+
+/-- **play phase.**  In step, both connected.  `request_playback` returns a createStream packet; the
+    server answers inside `handle_input`; the client, on the answer, sends its buffer length and `play`
+    on the new stream; the server raises exactly one play request (connected application, requested
+    key); when the application accepts it, the five messages delivered to the client raise the reset
+    notice (as an unhandled status) and exactly "playback accepted".  Afterwards the client is playing
+    the stream id the server holds as playing that key, in step — the state `C02_play_media` starts from. -/
+theorem play_phase {c c1 : Cli.State} {v : Srv.State} {now : Nat} {key appS : Bytes} {r1 : Cli.Res}
+    (hin : InStep c v) (htxn : c.nextTxn < 4294967296) (hns : v.nextStream < 4294967296)
+    (hkey : Utf8.valid key = true) (hkl : key.length ≤ 65535) (hbuf : c.cfg.bufferLengthMs < 4294967296)
+    (hvc : v.connected = true) (hva : v.app = some appS)
+    (h1 : Cli.requestStream c now (.play key) = (c1, .ok r1)) :
+    ∃ p1 v1 p2 c2 pa pb v2, r1 = .out p1 ∧
+      SrvPart.drain v now p1.bytes = (v1, .ok [.out p2]) ∧
+      CliPart.drain c1 now p2.bytes = (c2, .ok [.out pa, .out pb]) ∧
+      SrvPart.drain v1 now (pa.bytes ++ pb.bytes) =
+        (v2, .ok [.ev (.playRequested v.nextReq appS key .liveOrRecorded none false v.nextStream)]) ∧
+      ∀ v3 rs3, Srv.acceptRequest v2 now v.nextReq = (v3, .ok rs3) →
+        ∃ c3, CliPart.drain c2 now (bytesS rs3) =
+            (c3, .ok [.ev (.unhandleableOnStatus (str "NetStream.Play.Reset")), .ev .playbackAccepted]) ∧
+          (SrvEmit.outs rs3).length = 5 ∧
+          InStep c3 v3 ∧
+          c3 = { c with nextTxn := c.nextTxn + 1, txns := c3.txns, st := .playing, activeStream := some v.nextStream,
+                        ser := c3.ser, des := c3.des } ∧
+          v3 = { v with nextStream := v.nextStream + 1, streams := v3.streams, nextReq := v.nextReq + 1, reqs := v3.reqs,
+                        ser := v3.ser, des := v3.des } ∧
+          mapGet v.nextStream v3.streams = some (.playing key) := by
+  -- hop 1: createStream request
+  obtain ⟨p1, body1, hr1, hst, hp1, he1, hc1⟩ := requestStream_ok h1
+  have hwf1 := createStreamCmd_wf c htxn
+  obtain ⟨v1', p2, body2, hhm1, hp2, he2, hv1⟩ := srv_createStream v now
+    { ts := epoch now, typ := 20, msid := 0, data := body1 } c (linked_pos hin.sc)
+  have hstep1 : SrvSteps.steps v now (msgs [(p1, ({ ts := epoch now, typ := 20, msid := 0, data := body1 } : Msg))]) = _ :=
+    srv_steps_one v _ now _ _ (by rw [srv_stepMsg_of hwf1 hp1]; exact hhm1)
+  obtain ⟨core1, hd1, hl1⟩ := srv_recv now hin.cs he1 hstep1
+  rw [wire_one] at hd1
+  -- hop 2: the client takes the stream id and sends buffer length and play
+  have hwf2 := createStreamResult_wf (F64.ofU32 c.nextTxn) v.nextStream (F64.ofU32_lt _ htxn) hns
+  have hc1txn : mapGet c.nextTxn c1.txns = some (.createStream (.play key)) := by
+    rw [hc1]; simp [mapInsert, mapGet]
+  have hc1cfg : c1.cfg = c.cfg := by rw [hc1]
+  have hpos1 : 1 ≤ c1.ser.maxCs := Safe.emits_cs_pos he1 (linked_pos hin.cs)
+  obtain ⟨c2, pa, pb, ba, bb, hhm2, hpa, hpb, he3, hc2⟩ := cli_createStreamResult_play c1 now
+    { ts := epoch now, typ := 20, msid := 0, data := body2 } c.nextTxn v.nextStream key htxn hns hc1txn hkl hpos1
+  rw [hc1cfg] at hpa
+  have hsc1 : Linked v.ser c1.des := by rw [hc1]; exact hin.sc
+  have hstep2 : CliSteps.steps c1 now (msgs [(p2, ({ ts := epoch now, typ := 20, msid := 0, data := body2 } : Msg))]) = _ :=
+    cli_steps_one c1 _ now _ _ (by rw [cli_stepMsg_of hwf2 hp2, hhm2])
+  obtain ⟨core2, hd2, hl2⟩ := cli_recv now hsc1 he2 hstep2
+  rw [wire_one] at hd2
+  -- hop 3: the server takes both
+  have hstep3 := srv_steps_cons
+    (srv_step_setBufLen ({ v1' with des := { core := core1, buf := [] } } : Srv.State) now v.nextStream
+      c.cfg.bufferLengthMs (epoch now) 0 ba hns hbuf hpa)
+    (srv_steps_one _ _ now { ts := epoch now, typ := 20, msid := v.nextStream, data := bb } _ (by
+      rw [srv_stepMsg_of (playCmd_wf key hkey) hpb]
+      exact srv_play _ now _ key appS (by rw [hv1]; exact hvc) (by rw [hv1]; exact hva)))
+  obtain ⟨core3, hd3, hl3⟩ := srv_recv now (v := { v1' with des := { core := core1, buf := [] } }) hl1 he3 hstep3
+  rw [wire_two] at hd3
+  have hnr : ({ v1' with des := { core := core1, buf := [] } } : Srv.State).nextReq = v.nextReq := by rw [hv1]
+  simp only [List.nil_append] at hd3
+  refine ⟨p1, _, p2, _, pa, pb, _, hr1, hd1, hd2, (by rw [← hnr]; exact hd3), ?_⟩
+  intro v3 rs3 hacc
+  -- hop 4: the acceptance
+  rw [← hnr] at hacc
+  obtain ⟨q1, q2, q3, q4, q5, b1, b2, b3, b4, b5, hrs3, hq1, hq2, hq3, hq4, hq5, he4, hv3⟩ := acceptPlay_ok
+    (key := key) (sid := v.nextStream) (by simp [mapInsert, mapGet]) hns hacc
+  -- hop 5: the client takes the five messages
+  have hc2st : c2.st = .playRequested := by rw [hc2]
+  have hstep5 := cli_steps_cons
+    (c := ({ c2 with des := { core := core2, buf := [] } } : Cli.State))
+    (m := { ts := epoch now, typ := 20, msid := v.nextStream, data := b1 })
+    (by rw [cli_stepMsg_of playReset_wf hq1, cli_playReset])
+    (cli_steps_cons (cli_step_streamBegin _ now v.nextStream (epoch now) v.nextStream 4 b2 hns hq2)
+      (cli_steps_cons (m := { ts := epoch now, typ := 20, msid := v.nextStream, data := b3 })
+        (by rw [cli_stepMsg_of (playStart_wf key hkey) hq3, cli_playStart _ now _ key (by exact hc2st)])
+        (cli_steps_cons (m := { ts := epoch now, typ := 18, msid := v.nextStream, data := b4 })
+          (by rw [cli_stepMsg_of sampleAccess_wf hq4, cli_sampleAccess])
+          (cli_steps_one _ _ now { ts := epoch now, typ := 18, msid := v.nextStream, data := b5 } _
+            (by rw [cli_stepMsg_of dataStart_wf hq5, cli_dataStart])))))
+  obtain ⟨core5, hd5, hl5⟩ := cli_recv now (c := { c2 with des := { core := core2, buf := [] } }) hl2 he4 hstep5
+  have hb : bytesS rs3 = wire [(q1, ({ ts := epoch now, typ := 20, msid := v.nextStream, data := b1 } : Msg)),
+      (q2, { ts := epoch now, typ := 4, msid := v.nextStream, data := b2 }),
+      (q3, { ts := epoch now, typ := 20, msid := v.nextStream, data := b3 }),
+      (q4, { ts := epoch now, typ := 18, msid := v.nextStream, data := b4 }),
+      (q5, { ts := epoch now, typ := 18, msid := v.nextStream, data := b5 })] := by
+    rw [hrs3]; simp [bytesS, SrvEmit.outs, wire]
+  simp only [List.nil_append, List.cons_append, List.append_nil] at hd5
+  refine ⟨_, (by rw [hb]; exact hd5), by rw [hrs3]; simp [SrvEmit.outs], ⟨?_, hl5⟩, ?_, ?_, ?_⟩
+  · rw [hv3]; exact hl3
+  · rw [hc2, hc1]
+  · rw [hv3, hv1]
+  · rw [hv3]; simp [mapInsert, mapGet]
 
 end Rml.Workflow
